@@ -475,6 +475,26 @@ func (e *Exec) binaryWrite(s *State, fr *Frame, args []Value, in *ssa.Call) []Ou
 			}
 		}
 	case SliceV, NilV:
+		if sl, isS := v.(SliceV); isS && !sl.len_.isConst() {
+			// []uint8 of symbolic length: binary.Write writes exactly these bytes
+			if st, ok := dv.typ.Underlying().(*types.Slice); !ok || width(st.Elem()) != 8 {
+				panic(engineErr("binary.Write: unsupported slice type %s", dv.typ))
+			}
+			fn := e.prog.LookupMethod(w.typ, nil, "Write")
+			if fn == nil {
+				panic(engineErr("binary.Write: writer %s has no Write", w.typ))
+			}
+			outs := e.callFn(s, fr, fn, []Value{w.val, sl}, in)
+			var res []Outcome
+			for _, o := range outs {
+				if o.kind == ORet {
+					res = append(res, Outcome{kind: ORet, st: o.st, vals: []Value{o.vals[1]}})
+				} else {
+					res = append(res, o)
+				}
+			}
+			return res
+		}
 		bs, ok := e.byteSlice(s, v)
 		if !ok {
 			panic(engineErr("binary.Write: slice of symbolic length"))
@@ -600,6 +620,10 @@ func (e *Exec) doCopy(s *State, args []Value) []Outcome {
 		panic(engineErr("copy from %T", args[1]))
 	}
 	n := Ite(Cmp("slt", d.len_, slen), d.len_, slen)
+	if len(srcCells) == 0 {
+		// empty backing store: nothing can be copied
+		return ret(s, n)
+	}
 	darr := e.getPath(s.get(d.obj), d.path).(ArrV)
 	nc := append([]Value(nil), darr.cells...)
 	jlo, jhi := d.off.lo, uint64(len(nc))
@@ -639,7 +663,7 @@ func addNoWrap(a, b uint64) (uint64, bool) {
 // like iteChain but tolerates indices beyond the array (value irrelevant under its guard)
 func (e *Exec) iteChainSafe(cells []Value, idx *Term) Value {
 	if len(cells) == 0 {
-		panic(engineErr("read from empty backing store"))
+		return C(8, 0) // unreachable under its guard
 	}
 	if idx.isConst() && idx.val >= uint64(len(cells)) {
 		return cells[0]
